@@ -7,6 +7,7 @@ CONSTANTS
   MaxDisc = 2
   MaxSubs = 1
   Sequential = FALSE
+  Abandons = TRUE
   Timeouts = FALSE
   Limits <- C10Limits
   Affs <- C10Affs
